@@ -45,14 +45,20 @@ def parse_q(s):
     return Fraction(int(n), int(d))
 
 
+def stok(surf):
+    """the parent's surface as the opaque token handed to the model"""
+    return 'none' if surf is None else q(surf)
+
+
 def parse_children(line):
-    """model line  start|x,y x,y ...:area;...  ->  (start, [([(x, y)...], area)...])"""
+    """model line  start|x,y x,y ...:area@surface;...  ->  (start, [([(x, y)...], area, surface token)...])"""
     start, rest = line.split('|', 1)
     out = []
     for ch in rest.split(';'):
+        ch, surf = ch.rsplit('@', 1)
         pts, area = ch.rsplit(':', 1)
         poly = [tuple(float(parse_q(c)) for c in p.split(',')) for p in pts.split(' ')]
-        out.append((poly, float(parse_q(area))))
+        out.append((poly, float(parse_q(area)), surf))
     return int(start), out
 
 
@@ -65,14 +71,15 @@ def same_polygon(a, b, tol):
 
 
 def match_children(model, impl, tol):
-    """model: [(poly, signed area)]; impl: [poly].  column.__init__ reverses a clockwise node
-    list, so a model child with negative signed area is compared reversed."""
+    """model: [(poly, signed area, surface token)]; impl: [(poly, surface)].  column.__init__ reverses
+    a clockwise node list, so a model child with negative signed area is compared reversed.
+    A new column matches when its polygon AND its surface are the model's."""
     left = list(impl)
-    for poly, area in model:
+    for poly, area, surf in model:
         p = list(reversed(poly)) if area < 0 else poly
         hit = None
-        for k, ip in enumerate(left):
-            if same_polygon(p, ip, tol): hit = k; break
+        for k, (ip, isurf) in enumerate(left):
+            if same_polygon(p, ip, tol) and stok(isurf) == surf: hit = k; break
         if hit is None: return False
         left.pop(hit)
     return not left
@@ -151,7 +158,7 @@ def impl_single(case):
         after = O.snapshot(g)
         kids = find_children(before, after)
         return {'before': {n: (v[0], v[1], v[2]) for n, v in before.cols.items()}, 'centres': centres, 'areas': areas,
-                'kids': {o: [after.cols[k][1] for k in ks] for o, ks in kids.items()}, 'size': after.size,
+                'kids': {o: [(after.cols[k][1], after.cols[k][2]) for k in ks] for o, ks in kids.items()}, 'size': after.size,
                 'colvol_before': before.colvol, 'colvol_after': after.colvol, 'layers_before': layers,
                 'layers_after': [(float(l.bottom), float(l.top)) for l in g.layerlist],
                 'after_cols': {n: (v[2], v[3]) for n, v in after.cols.items()}, 'order': [c for c in before.cols]}
@@ -184,15 +191,26 @@ def corr_refine(ctx, exe, pool, cases, name):
                 want = col_sides_refined_full(before, S)
             for n, sides in want.items():
                 nm, poly, surf = res['before'][n]
-                lines.append('rf\t%d\t%s\t%s\t%s' % (len(poly), ','.join(map(str, sides)), qpts(poly), qpts([res['centres'][n]])))
+                lines.append('rf\t%d\t%s\t%s\t%s\t%s' % (len(poly), ','.join(map(str, sides)), qpts(poly), qpts([res['centres'][n]]), stok(surf)))
                 meta.append((case, n, res))
             for n in res['before']:
                 if n not in want and n in res['kids']:
                     ctx.disagreement(name, {'case': strip_case(case), 'column': n}, 'column has no refined side: unchanged', 'column was replaced')
+        elif case['op']['name'] == 'split':
+            n = res['order'][case['op']['column']]
+            nm, poly, surf = res['before'][n]
+            i0 = case['op']['node']
+            lines.append('sp\t%d\t%s\t%s\t%s\t%s' % (len(poly), i0 if 0 <= i0 < len(poly) else 99, qpts(poly), qpts([res['centres'][n]]), stok(surf)))
+            meta.append((case, n, res))
+        elif case['op']['name'] == 'triangulate':
+            n = res['order'][0]
+            nm, poly, surf = res['before'][n]
+            lines.append('tr\t%d\t0\t%s\t%s\t%s' % (len(poly), qpts(poly), qpts([res['centres'][n]]), stok(surf)))
+            meta.append((case, n, res))
         else:
             n = res['order'][0]
             nm, poly, surf = res['before'][n]
-            lines.append('dc\t%d\t%s\t%s\t%s' % (len(poly), ','.join(map(str, case['polygon']['straight'])), qpts(poly), qpts([res['centres'][n]])))
+            lines.append('dc\t%d\t%s\t%s\t%s\t%s' % (len(poly), ','.join(map(str, case['polygon']['straight'])), qpts(poly), qpts([res['centres'][n]]), stok(surf)))
             meta.append((case, n, res))
     out = vf.run_driver(exe, lines) if lines else []
     nd = 0
@@ -201,7 +219,7 @@ def corr_refine(ctx, exe, pool, cases, name):
         tol = 1e-9 * res['size']
         if o in ('NONE', 'RAISE', 'BADCASE'):
             ok = False; why = 'model: %s' % o
-        elif o == 'KEEP':
+        elif o in ('KEEP', 'FALSE'):
             ok = impl is None; why = 'model keeps the column'
         else:
             start, model = parse_children(o)
@@ -337,6 +355,25 @@ def shipped_cases(rng, infos, counts):
 
 
 # ---------------------------------------------------------------------------- oracle sweep
+def surface_classes(case):
+    """where the explicitly set column surfaces of a case lie relative to the layers (for the evidence)"""
+    m = case['mesh']
+    if m['kind'] == 'file' or not case.get('surfaces'): return []
+    top = m.get('origin', [0., 0., 0.])[2] if m['kind'] == 'rect' else m.get('top', 0.0)
+    bots = []; z = top
+    for t in m['dz']: z -= t; bots.append(z)
+    out = []
+    for i, sf in case['surfaces']:
+        if sf == 0.0: out.append('exactly-0.0(top!=0)' if top != 0.0 else 'exactly-0.0(top=0)')
+        if sf > top: out.append('above-top')
+        elif sf == top: out.append('exactly-top')
+        elif sf == bots[-1]: out.append('exactly-bottom')
+        elif sf in bots: out.append('on-layer-boundary')
+        elif sf < bots[-1]: out.append('below-bottom')
+        else: out.append('inside-layer')
+    return out
+
+
 def sweep(ctx, pool, family, cases, stats):
     t0 = time.time()
     results = pool.map(O.check_case, cases, chunksize=max(1, min(32, len(cases) // (4 * vf.NPROC) + 1)))
@@ -349,6 +386,7 @@ def sweep(ctx, pool, family, cases, stats):
         stats['op'][op['name'] + (':bisect=%s' % op.get('bisect') if op['name'] == 'refine' else '')
                     + (':edge' if op.get('edge') else '')] += 1
         if 'shape' in case: stats['shape'][case['shape']] += 1
+        for cl in surface_classes(case): stats['surface'][cl] += 1
         for k, v in res.get('stats', {}).items(): stats['totals'][k] += v
         if res['status'].startswith('setup-failed'):
             ctx.proof_failures.append({'kind': 'harness', 'name': 'case-setup-failed', 'detail': res['status'] + '\n' + res.get('trace', '')})
@@ -372,7 +410,9 @@ def make_cases(ctx, rng, infos, tr):
     fam['refine-single-column-gadgets'] = C.gadget_cases(rng, 40 if th else 4)
     fam['decompose-polygons'] = C.decompose_cases(rng, 3 if th else 1, nmax=12 if th else 10)
     fam['split-column'] = C.split_cases(rng, 600 if th else 60)
+    fam['triangulate-column'] = C.triangulate_cases(rng, 12 if th else 3)
     fam['refine-layers'] = C.layer_cases(rng, th)
+    fam['surface-sweep'] = C.surface_cases(rng, 3 if th else 1)
     if th: counts = {'g7.dat': (150, 0, 6), 'g6.dat': (60, 0, 4), 'g5.dat': (60, 0, 4), 'g1.dat': (60, 20, 6), 'g3.dat': (40, 20, 4), 'g2.dat': (40, 0, 3), 'g4.dat': (40, 0, 3)}
     else: counts = {'g7.dat': (12, 0, 2), 'g6.dat': (4, 0, 1), 'g5.dat': (4, 0, 1), 'g1.dat': (5, 3, 1), 'g3.dat': (3, 2, 1), 'g2.dat': (2, 0, 1), 'g4.dat': (2, 0, 1)}
     fam['shipped-geometries'] = shipped_cases(rng, infos, counts)
@@ -399,8 +439,9 @@ def entry_cases(rng, tr, broken, shapes=12):
     for nn, sides in pats:
         for _ in range(shapes):
             corners = C.convex_polygon(rng, nn)
-            m = C.gadget(corners, sides)
-            cases.append({'mesh': m, 'surfaces': [[j, rng.choice([-3.0, -12.5, 0.0])] for j in range(len(m['columns']))], 'seed': rng.randrange(1 << 30),
+            top = rng.choice(C.tops_for((10., 5.)))
+            m = C.gadget(corners, sides, top=top)
+            cases.append({'mesh': m, 'surfaces': C.special_surfaces(rng, len(m['columns']), m['dz'], top, first=len(cases)), 'seed': rng.randrange(1 << 30),
                           'gadget': {'nn': nn, 'sides': list(sides)}, 'npts': 16,
                           'op': {'name': 'refine', 'columns': list(range(1, len(m['columns']))), 'bisect': False, 'edge': []}})
     return cases
@@ -437,10 +478,11 @@ def run(ctx):
     tr = translate(ctx)
     exe = None
     if tr is not None:
-        ok = ctx.coq_build(timeout=600)
+        ok = ctx.coq_build(props=('Props.v', 'Props2.v'), timeout=600)
         exe = vf.build_driver(ctx)
     rng = ctx.rng
-    stats = {'status': collections.Counter(), 'op': collections.Counter(), 'shape': collections.Counter(), 'totals': collections.Counter()}
+    stats = {'status': collections.Counter(), 'op': collections.Counter(), 'shape': collections.Counter(), 'surface': collections.Counter(),
+             'totals': collections.Counter()}
     mp = multiprocessing.get_context('fork')
     with mp.Pool(vf.NPROC) as pool:
         infos = pool.map(mesh_info, SHIPPED)
@@ -454,6 +496,11 @@ def run(ctx):
                 if not ctx.thorough: full = full[:700]
                 corr_refine(ctx, exe, pool, full, 'refine-children-vs-model(regions)')
                 corr_refine(ctx, exe, pool, fam['decompose-polygons'], 'decompose-children-vs-model')
+                corr_refine(ctx, exe, pool, fam['split-column'], 'split-children-vs-model')
+                corr_refine(ctx, exe, pool, fam['triangulate-column'], 'triangulate-children-vs-model')
+                sw = [c for c in fam['surface-sweep'] if c['op']['name'] in ('decompose', 'triangulate', 'split')
+                      or (c['op']['name'] == 'refine' and not c['op']['bisect'])]
+                corr_refine(ctx, exe, pool, sw, 'surface-sweep-children-vs-model')
                 corr_geometry(ctx, exe, rng, 2000 if ctx.thorough else 300)
                 vcases = fam['refine-layers'] + fam['refine-exhaustive-small-rect'][::(3 if ctx.thorough else 17)]
                 corr_volume(ctx, exe, pool, vcases)
@@ -466,13 +513,17 @@ def run(ctx):
             ctx.log('oracle %s: %d cases' % (name, len(cases)))
 
         def deep(broken):
+            # bounded by case counts (deterministic), not by the clock
             r2 = random.Random(ctx.seed + 4711)
+            sweep(ctx, pool, 'deep-surface-sweep', C.surface_cases(r2, 4 if ctx.thorough else 2), stats)
+            if ctx.new_failures: return
             if tr is not None:
                 sweep(ctx, pool, 'deep-entry-gadgets', entry_cases(r2, tr, broken, 30), stats)
                 if ctx.new_failures: return
-            t0 = time.time(); cap = 900 if ctx.thorough else 60
-            while time.time() - t0 < cap and not ctx.new_failures:
-                sweep(ctx, pool, 'deep-random', C.random_rect(r2, 200) + C.twice_refined(r2, 200) + C.decompose_cases(r2, 1), stats)
+            for rnd in range(12 if ctx.thorough else 3):
+                sweep(ctx, pool, 'deep-random', C.random_rect(r2, 200) + C.twice_refined(r2, 200) + C.decompose_cases(r2, 1)
+                      + C.split_cases(r2, 100) + C.triangulate_cases(r2, 4) + C.gadget_cases(r2, 4), stats)
+                if ctx.new_failures: return
         ctx.extra['input_distribution'] = {k: dict(v) for k, v in stats.items()}
         tot = stats['totals']
         ctx.hyp_met['children_positive / refine_column_area: replaced parent strictly convex CCW with centre strictly inside'] = \
